@@ -3,6 +3,7 @@ C08 — whole-tool part: the output of `_run_stub_generator` does not depend on 
 enumerates the directory, nor (for the alias table) on the order of mypy's expression-type dict.
 -/
 import StubGen.Proofs.Pipeline
+import StubGen.Proofs.AliasCongr
 
 namespace StubGen.C08b
 
@@ -44,6 +45,45 @@ theorem mypy_input_canonical (root : PathParts) (b : Bool) {files files' : List 
 theorem get_api_enumeration_order (i : ToolInput) {files' : List PathParts} (h : i.files ~ files') :
     getApi { i with files := files' } = getApi i :=
   pl_getApi_files_perm i h
+
+/-- The analysis reads the alias table only through look-ups by name, and `_find_alias` sorts the candidates: two alias
+    tables with the same candidate SET for every short name — whatever the order of the keys and of the candidates —
+    give the same API, the same warnings, the same error (congruence proved through every function of the analyser,
+    `Proofs/AliasCongr`). -/
+theorem analysis_reads_alias_sets (env : AEnv) (al' : AliasTable) (h : AliasEquiv env.aliases al')
+    (docRoot : GNode) (mods : List SrcModule) :
+    analyze env docRoot mods = analyze { env with aliases := al' } docRoot mods :=
+  ac_analyze env al' h docRoot mods
+
+/-- END TO END: two runs of the whole tool that differ only in the ORDER of mypy's expression-type dict
+    (`build_result.types`: the order in which `_get_aliases` meets the expressions, hence the insertion order of the alias
+    dict and of each of its candidate sets) end alike: the same error, or the same package, walked modules, API, warnings,
+    API file text, stubs and write operations.  Only the alias table itself (a dict of sets) may be laid out differently. -/
+theorem tool_expression_type_order (i : ToolInput) {facts' : List AliasFact} (h : i.aliasFacts ~ facts') :
+    (runTool { i with aliasFacts := facts' }).map (fun o => { o with aliases := [] })
+      = (runTool i).map (fun o => { o with aliases := [] }) := by
+  unfold runTool getApi
+  dsimp only
+  cases hd : discoverSorted i.srcDir i.files i.isTestRun with
+  | error e => rfl
+  | ok rd =>
+    obtain ⟨root, d⟩ := rd
+    dsimp only
+    have he := ac_getAliases_perm (pathStem root) h
+    have ha := ac_analyze { opts := i.opts, aliases := getAliases (pathStem root) i.aliasFacts, infoBases := i.infoBases } (getAliases (pathStem root) facts') he i.docRoot (selectModules i.graph d)
+    rw [← ha]
+    cases analyze { opts := i.opts, aliases := getAliases (pathStem root) i.aliasFacts, infoBases := i.infoBases } i.docRoot (selectModules i.graph d) with
+    | error e => rfl
+    | ok rw =>
+      obtain ⟨r, ws⟩ := rw
+      dsimp only
+      cases apiJsonText (pathStem root) r with
+      | error e => rfl
+      | ok text =>
+        dsimp only
+        cases runGenerator (r.toApi (pathStem root)) i.safe i.preexisting with
+        | error e => rfl
+        | ok gen => rfl
 
 /-! non-vacuity: a three-file listing in two orders; one short name contributed by two entries -/
 example : [["/", "s", "p", "__init__.py"], ["/", "s", "p", "a.py"], ["/", "s", "p", "b.py"]]
